@@ -15,7 +15,9 @@ use serde_json::{json, Map, Value};
 pub type RawDb = heed::Database<Bytes, Bytes>;
 pub type Kv = Vec<(Vec<u8>, Vec<u8>)>;
 
-pub const VERIF_ROOT: &str = "/verif";
+pub fn verif_root() -> PathBuf {
+    PathBuf::from(std::env::var("VERIF_ROOT").unwrap_or_else(|_| "/verif".to_string()))
+}
 
 // ------------------------------------------------------------------------------------------
 // metrics
@@ -138,7 +140,7 @@ pub fn scratch_root() -> PathBuf {
     let base = if shm.is_dir() && std::fs::create_dir_all(shm.join("arroy-verif")).is_ok() {
         shm.join("arroy-verif")
     } else {
-        let p = Path::new(VERIF_ROOT).join("target").join("scratch");
+        let p = verif_root().join("target").join("scratch");
         std::fs::create_dir_all(&p).expect("cannot create scratch root");
         p
     };
@@ -398,7 +400,7 @@ pub struct KnownFinding {
 }
 
 pub fn load_known_findings() -> Vec<KnownFinding> {
-    let path = Path::new(VERIF_ROOT).join("known_findings.jsonl");
+    let path = verif_root().join("known_findings.jsonl");
     let mut out = Vec::new();
     if let Ok(text) = std::fs::read_to_string(path) {
         for line in text.lines() {
@@ -520,7 +522,7 @@ impl Report {
             "wall_s": (wall * 1000.0).round() / 1000.0,
             "violations": new_violations.len(),
         });
-        let dir = Path::new(VERIF_ROOT).join("evidence");
+        let dir = verif_root().join("evidence");
         let _ = std::fs::create_dir_all(&dir);
         let path = dir.join(format!("{}.json", self.property));
         if let Err(e) = std::fs::write(&path, serde_json::to_string_pretty(&evidence).unwrap()) {
@@ -545,7 +547,7 @@ impl Report {
             );
             return 0;
         }
-        let rdir = Path::new(VERIF_ROOT).join("replays");
+        let rdir = verif_root().join("replays");
         let _ = std::fs::create_dir_all(&rdir);
         for v in &new_violations {
             let h = hash128(&[v.signature.as_bytes()]) as u32;
